@@ -117,7 +117,7 @@ def fragment_exclusion(term, sizes=None) -> str | None:  # noqa: C901
     return None
 
 
-NAN_AWARE_HEADS = {"ph", "dw", "dwv", "mm", "where", "cmp", "fn", "red", "py", "nps", "index", "stack",
+NAN_AWARE_HEADS = {"ph", "dw", "dwv", "dwalias", "mm", "where", "cmp", "fn", "red", "py", "nps", "index", "stack",
                    "concat", "roll", "transpose", "T", "reshape", "expand_dims", "squeeze",
                    "broadcast_to", "full", "zeros", "ones", "bin", "neg", "abs", "pad", "dup", "tag"}
 
